@@ -46,6 +46,11 @@ func (s ExploreUnion) Explore(n datamodel.Node, p datamodel.PathSegment) (Select
 	// TODO: memory efficient?
 	nonNilResults := make([]Selector, 0, len(s.Members))
 	for _, member := range s.Members {
+		if _, ok := member.(ExploreRecursiveEdge); ok {
+			// A bare recursive edge has nothing to explore at this node
+			// (ExploreRecursive.Explore treats it the same way); calling its Explore would panic.
+			continue
+		}
 		resultSelector, err := member.Explore(n, p)
 		if err != nil {
 			return nil, err
